@@ -101,7 +101,8 @@ func tail(s string, n int) string {
 	return s
 }
 
-var c22Common = []string{"", " ", "h", "q", "q x", "nosuch", "   q", "h 1 2"}
+// (incl. lines of non-printing characters: what ESC, Ctrl-A, a tab followed by ENTER send)
+var c22Common = []string{"", " ", "h", "q", "q x", "nosuch", "   q", "h 1 2", "\x1b", " \x01 ", "\t", "q\x00"}
 
 var c22Alpha = map[string][]uiLine{}
 
@@ -185,7 +186,7 @@ func init() {
 	checks["C22"] = eng.Check{
 		Hist:        true,
 		Procs:       12,
-		Rule:        "explicit-state BFS over input-line histories of depth <=3 (thorough 4) from the initial state and 6 non-initial root states (inside the emulator, after emulation steps, inside memory views of an absent memory, of a written memory and of a memory written in the last window of the address space, after a move) on 4 programs (a 1-instruction code, a 3-block code with blocks of different sizes, a loop with a gap, a code with blocks of 2, 1 and 2 instructions), through the real UI.processCommand with stdin injected per command; line alphabets per mode: disassembler 43 lines plus, per program, moves between every pair of block header lines, a move of EVERY line onto itself and onto its successor, bounds of every line, and move/bounds/goto on each block's first instruction, emulator 41 lines with prompt answers from {5,0x10,-1,0xfffffffffffffff0,'',_,zz} and, for steps, answers outside the range of a narrow prompt {-200,-0x8001,-3000000000,-9223372036854775809,0x1ff}, memory view 27 lines (blank/space-only lines, missing/extra/non-numeric/negative/huge arguments, out-of-range line numbers, bad regexes, unknown commands, mode switches e, m <key>, q). After every command the composite screen is rendered at heights 24 and 50 as Run does. States are deduplicated by (mode stack, cursors, marks, code order, emulator registers and memory). A line that leaves the observable state unchanged is entered a second time (hidden state left by a failed command). Plus three long walks per program on a single session (600 lines cycling through the alphabet of the current mode; in the third every line is entered twice in a row). Oracle: no panic, the command loop does not fail, q pops exactly one mode. PROC conformance: every single disassembler line (thorough: every pair of disassembler lines and every emulator line after 'entry; e') typed into the real binary under a pseudo-terminal on two programs, followed by quits: no crash, no hang, exit status 0. Non-trivial = history reaching a new state.",
+		Rule:        "explicit-state BFS over input-line histories of depth <=3 (thorough 4) from the initial state and 6 non-initial root states (inside the emulator, after emulation steps, inside memory views of an absent memory, of a written memory and of a memory written in the last window of the address space, after a move) on 4 programs (a 1-instruction code, a 3-block code with blocks of different sizes, a loop with a gap, a code with blocks of 2, 1 and 2 instructions), through the real UI.processCommand with stdin injected per command; line alphabets per mode: disassembler 43 lines plus, per program, moves between every pair of block header lines, a move of EVERY line onto itself and onto its successor, bounds of every line, and move/bounds/goto on each block's first instruction, emulator 41 lines with prompt answers from {5,0x10,-1,0xfffffffffffffff0,'',_,zz} and, for steps, answers outside the range of a narrow prompt {-200,-0x8001,-3000000000,-9223372036854775809,0x1ff}, memory view 27 lines (blank/space-only lines, lines of control characters (ESC, ^A between spaces, TAB, a NUL behind a command), missing/extra/non-numeric/negative/huge arguments, out-of-range line numbers, bad regexes, unknown commands, mode switches e, m <key>, q). After every command the composite screen is rendered at heights 24 and 50 as Run does. States are deduplicated by (mode stack, cursors, marks, code order, emulator registers and memory). A line that leaves the observable state unchanged is entered a second time (hidden state left by a failed command). Plus three long walks per program on a single session (600 lines cycling through the alphabet of the current mode; in the third every line is entered twice in a row). Oracle: no panic, the command loop does not fail, q pops exactly one mode. PROC conformance: every single disassembler line (thorough: every pair of disassembler lines and every emulator line after 'entry; e') typed into the real binary under a pseudo-terminal on two programs, followed by quits: no crash, no hang, exit status 0. Non-trivial = history reaching a new state.",
 		Assumptions: []string{"every injected input ends with a tail of valid answers so prompts never hit EOF (horizon)", "terminal size is supplied by the harness (heights 24, 50); the system call path is only exercised by C26's pty runs"},
 		Run: func(r *eng.Run) {
 			uix.Discard = true // the oracle does not read the screen text
